@@ -35,6 +35,17 @@ Theorem C12_restore_exact : forall s i vw,
   s_map (fst (spec_step s2 (ORestore i (sv_count vw)))) = s_map s.
 Proof. exact spec_restore_exact. Qed.
 
+(* the same with nested snapshots: any operation may happen in between — further snapshots of the same view, restores and
+   deletions of other snapshot ids, on any view — except restoring or deleting the snapshot id itself *)
+Theorem C12_restore_exact_nested : forall s i vw,
+  nth_error (s_views s) i = Some vw ->
+  let id := sv_count vw in
+  let s1 := fst (spec_step s (OSnapshot i)) in
+  forall ops, (forall o, In o ops -> keeps_snapshot i id o) ->
+  let s2 := fst (spec_run s1 ops) in
+  s_map (fst (spec_step s2 (ORestore i id))) = s_map s.
+Proof. exact spec_restore_exact_nested. Qed.
+
 Theorem C12_commit_writes_final_state : forall db c m, sorted db -> Inv db c -> sorted m ->
   (forall k, lookup m k = overlay db c k) -> apply_writes (commit_writes c) db = m.
 Proof. exact commit_writes_final_state. Qed.
